@@ -118,6 +118,12 @@ CLAIMED = {
                   'Tied by generated models declaring three names at up to ten scope kinds with types that identify the declaration, uses before / after every declaration, and comparing each use\'s binding read from the document with the extracted Coq specification; Unknown_identifier diagnostics must match the unbound uses.',
              design='4/C07',
              note='Process-qualified names in queries (expr_dot with argument substitution) are not modelled or generated. On recovered parses the leaked binder frame (C16-frame-leak) changes bindings; C07 generates fault-free texts (apart from duplicate definitions and unknown names).'),
+ 'C09': dict(technique='Coq: parenthesis invariance and keyword-alias equalities from the shift-reduce round-trip theorems over the regenerated operator table, renaming invariance of name resolution (injective renamings) from the scope model; relational oracle on the real library for the four rewrite families',
+             text='C09_parentheses_invariant: for every expression tree the tokens with necessary parentheses and the fully parenthesised tokens parse to the same tree; C09_alias_and / _or / _not: the keyword forms build the nodes of their symbolic forms under the same rule; '
+                  'C09_renaming_keeps_bindings: under any injective renaming every use keeps its declaration. Tied by rewriting generated accepted and rejected models (blanks / line breaks / comments between the same tokens, redundant parentheses, aliases, consistent renaming of all user identifiers) '
+                  'and comparing the multiset of diagnostic messages (renamed, positions dropped), the supported-analysis verdict and the document dump; one probe per soft keyword used as a type name.',
+             design='4/C09',
+             note='White space and comments are not modelled at character level in Coq (flex-generated lexer): decided by the oracle only. Documents are not compared after a syntax error (the recovered tree depends on which error production applies). Known finding C09-soft-keyword-type-name.'),
 }
 NOT_YET = 'check not built yet in this revision (work in progress, see DESIGN.md section 7 staging)'
 m = dict(version=1, setup_cmd='tools/setup.sh',
